@@ -39,9 +39,13 @@ pub fn verif_routing_id_bytes(c: &ZmtpEngineConfig) -> Vec<u8> { unimplemented!(
 pub fn verif_ttl_ms(c: &ZmtpEngineConfig) -> u16 { unimplemented!() }
 // R8: `socket_type_name_from_code(b).map(String::from)`
 #[verifier::external_body]
+pub fn verif_empty_slice() -> (r: &'static [u8]) ensures r@ =~= Seq::<u8>::empty() { unimplemented!() }
+#[verifier::external_body]
 pub fn verif_stype_name_owned(code: u8) -> Option<String> { unimplemented!() }
 
 // ---- greeting.rs / security/mod.rs callees as contract stand-ins (their own units: greeting, compat, negotiate)
+// std::time::Instant::duration_since saturates at zero
+pub open spec fn elapsed(now: Instant, since: Instant) -> nat { if now.ns() >= since.ns() { (now.ns() - since.ns()) as nat } else { 0 } }
 pub open spec fn v3_tail_len() -> nat { 53 }
 #[verifier::external_body]
 pub fn encode_v3_tail(mechanism: &[u8; 20], as_server: bool, buffer: &mut BytesMut)
@@ -205,6 +209,9 @@ parts = [
        ("C19:every_ping_answered_with_same_context", "old(self).version != Some(ZmtpVersion::V2) ==> sends(final(out).net_actions@) =~= sends(old(out).net_actions@) + pong_replies(final(self).new_frames(old(self).framer.read_log()))"),
        ("C19:no_heartbeat_on_v2", "old(self).version == Some(ZmtpVersion::V2) ==> sends(final(out).net_actions@) == sends(old(out).net_actions@)"),
        ("C19:pong_clears_waiting", "final(self).waiting_for_pong ==> old(self).waiting_for_pong"),
+       # "a peer on which traffic keeps flowing is never disconnected by the heartbeat logic": any inbound frame is a sign of life,
+       # so an outstanding PING stops counting towards HEARTBEAT_TIMEOUT (as in libzmq, which cancels its timeout timer on any input)
+       ("C19:any_inbound_frame_counts_as_liveness", "final(self).new_frames(old(self).framer.read_log()).len() > 0 ==> !final(self).waiting_for_pong"),
        ("C06:frame", "final(self).version == old(self).version && final(self).framer.origin_kind() == old(self).framer.origin_kind() && final(self).framer.origin_complete() == old(self).framer.origin_complete()"),
        ("C07:phase_only_closes", "final(self).phase == old(self).phase || final(self).phase == ZmtpPhase::Closed"),
      ]),
@@ -217,6 +224,7 @@ parts = [
          ("C19:loop_pongs", "old(self).version != Some(ZmtpVersion::V2) ==> sends(out.net_actions@) =~= sends(old(out).net_actions@) + pong_replies(self.new_frames(old(self).framer.read_log()))"),
          ("C19:loop_v2", "old(self).version == Some(ZmtpVersion::V2) ==> sends(out.net_actions@) == sends(old(out).net_actions@)"),
          "self.waiting_for_pong ==> old(self).waiting_for_pong",
+         ("C19:loop_liveness", "self.new_frames(old(self).framer.read_log()).len() > 0 ==> !self.waiting_for_pong"),
          PD_INV_FRAME,
          "self.phase == old(self).phase", "old(self).phase == ZmtpPhase::Data", "old(self).inv()",
          "self.revision_sent == old(self).revision_sent && self.is_server == old(self).is_server",
@@ -315,6 +323,55 @@ parts = [
              "proof { assert(all_more(self.partial_batch@)); assert(self.version == Some(ZmtpVersion::V3)); assert(self.inv()); }"),
             ("v2", "re:self\\.process_v2_identity\\(out\\);", 0, "before",
              "proof { assert(all_more(self.partial_batch@)); }")]),
+  Fn(EN, "on_network_bytes", impl=IMPL, emit_impl="impl ZmtpEngine",
+     requires=["old(self).inv()"],
+     ensures=[
+       ("C06+C04+C02:inv_preserved", "final(self).inv()"),
+       ("C06:config_frame", "final(self).config == old(self).config"),
+       # the public entry point: whatever bytes the peer sends, in any phase and however they are cut
+       ("C06:handshake_complete_and_deliveries_only_when_authenticated", "n_gated(r.app_actions@) > 0 ==> final(self).auth_ok()"),
+       ("C02:only_complete_messages_delivered", "deliveries_complete(r.app_actions@)"),
+       ("C04:leftover_bytes_drained_in_same_call", "final(self).drained()"),
+       ("C07:closed_stays_closed", "old(self).phase == ZmtpPhase::Closed ==> final(self).phase == ZmtpPhase::Closed && r.app_actions@.len() == 0 && r.net_actions@.len() == 0"),
+     ],
+     extra=[("R6", "self.network_read_accumulator.extend_from_slice(&data)", "self.network_read_accumulator.extend_from_slice(data.as_slice())", 1)],
+     hints=[("bc", "@fn_start", 0, "", "broadcast use lemma_delivered_push, lemma_sends_push, lemma_n_gated_push;"),
+            ("m", "re:match self\\.phase \\{", 0, "before", "proof { assert(n_gated(out.app_actions@) == 0); assert(deliveries_complete(out.app_actions@)); }")]),
+  Fn(EN, "on_app_message", impl=IMPL, emit_impl="impl ZmtpEngine",
+     ensures=[
+       ("C06:nothing_sent_before_data_phase", "old(self).phase != ZmtpPhase::Data ==> r.net_actions@.len() == 0 && r.app_actions@.len() == 0"),
+       ("C06:never_reports_completion", "n_gated(r.app_actions@) == 0"),
+       ("C06:frame", "final(self).phase == old(self).phase && final(self).version == old(self).version && final(self).config == old(self).config "
+                     "&& final(self).framer.origin_kind() == old(self).framer.origin_kind() && final(self).framer.origin_complete() == old(self).framer.origin_complete() "
+                     "&& final(self).partial_batch == old(self).partial_batch && final(self).pending_framer == old(self).pending_framer && final(self).security_mechanism == old(self).security_mechanism"),
+     ],
+     hints=[("bc", "@fn_start", 0, "", "broadcast use lemma_delivered_push, lemma_sends_push, lemma_n_gated_push;")]),
+  Fn(EN, "on_tick", impl=IMPL, emit_impl="impl ZmtpEngine",
+     ensures=[
+       ("C19:no_heartbeat_outside_data_or_on_v2",
+        "old(self).phase != ZmtpPhase::Data || old(self).version == Some(ZmtpVersion::V2) ==> r.net_actions@.len() == 0 && r.app_actions@.len() == 0 && final(self).phase == old(self).phase && final(self).waiting_for_pong == old(self).waiting_for_pong"),
+       # closed by the heartbeat logic only when a PING is outstanding for at least HEARTBEAT_TIMEOUT
+       ("C19:timeout_only_after_unanswered_ping",
+        "final(self).phase != old(self).phase ==> final(self).phase == ZmtpPhase::Closed && old(self).waiting_for_pong && old(self).config.heartbeat_timeout is Some "
+        "&& old(self).last_ping_sent_time is Some && elapsed(now, old(self).last_ping_sent_time->0) >= old(self).config.heartbeat_timeout->0.ns()"),
+       # a PING goes out no sooner than HEARTBEAT_IVL after the last activity and never while one is outstanding
+       ("C19:ping_no_sooner_than_ivl",
+        "sends(r.net_actions@).len() > 0 ==> !old(self).waiting_for_pong && old(self).config.heartbeat_ivl is Some && elapsed(now, old(self).last_activity_time) >= old(self).config.heartbeat_ivl->0.ns() "
+        "&& final(self).waiting_for_pong && final(self).last_ping_sent_time == Some(now)"),
+       # ... and no later than the first tick at which the interval has elapsed (the actor ticks every IVL => at most 2 x IVL)
+       ("C19:ping_due_is_sent",
+        "old(self).phase == ZmtpPhase::Data && old(self).version != Some(ZmtpVersion::V2) && final(self).phase == ZmtpPhase::Data && !old(self).waiting_for_pong && old(self).config.heartbeat_ivl is Some "
+        "&& elapsed(now, old(self).last_activity_time) >= old(self).config.heartbeat_ivl->0.ns() ==> sends(r.net_actions@).len() == 1"),
+       ("C19:ping_wire_format", "sends(r.net_actions@).len() > 0 ==> sends(r.net_actions@).len() == 1 && exists|ttl: u16| sends(r.net_actions@)[0] == enc_frame(false, true, PING_TAG() + to_be16(ttl as nat))"),
+       ("C06:never_reports_completion", "n_gated(r.app_actions@) == 0"),
+       ("C06:frame", "final(self).version == old(self).version && final(self).config == old(self).config && final(self).framer == old(self).framer && final(self).partial_batch == old(self).partial_batch "
+                     "&& final(self).pending_framer == old(self).pending_framer && final(self).security_mechanism == old(self).security_mechanism && final(self).last_activity_time == old(self).last_activity_time"),
+     ],
+     extra=[("R8", re.compile(r"self\s*\.config\s*\.heartbeat_timeout\s*\.map\(\|d\| d\.as_millis\(\)\.min\(u16::MAX as u128\) as u16\)\s*\.unwrap_or\(0\)", re.S), "verif_ttl_ms(&self.config)", 1),
+            ("R6", "ZmtpCommand::create_ping(ttl_ms, &[])", "ZmtpCommand::create_ping(ttl_ms, verif_empty_slice())", 1)],
+     hints=[("bc", "@fn_start", 0, "", "broadcast use lemma_delivered_push, lemma_sends_push, lemma_n_gated_push;"),
+            ("ping", "re:self\\.waiting_for_pong = true;", 0, "before",
+             "proof { assert(PING_TAG() + to_be16(ttl_ms as nat) + Seq::<u8>::empty() =~= PING_TAG() + to_be16(ttl_ms as nat)); }")]),
 ]
 
 FNS = {p.name: p for p in parts if isinstance(p, Fn)}
